@@ -1774,10 +1774,16 @@ class BaseBosonicState(BaseState):
         cutoff = kwargs.get("cutoff", 10)
         weights, mus, covs = self.reduced_bosonic(modes)  # pylint: disable=unused-variable
 
+        # The Walrus uses the (x_1,...,x_N,p_1,...,p_N) ordering
+        ind = np.concatenate([np.arange(0, 2 * len(modes), 2), np.arange(1, 2 * len(modes), 2)])
         rho = 0
         for i in range(self.num_weights):
             rho += weights[i] * twq.density_matrix(
-                mus[i], covs[i], hbar=self._hbar, normalize=False, cutoff=cutoff
+                mus[i][ind],
+                covs[i][np.ix_(ind, ind)],
+                hbar=self._hbar,
+                normalize=False,
+                cutoff=cutoff,
             )
         return rho
 
@@ -1895,10 +1901,12 @@ class BaseBosonicState(BaseState):
         if sum(n) >= cutoff:
             raise ValueError("Cutoff argument must be larger than the sum of photon numbers.")
 
+        # The Walrus uses the (x_1,...,x_N,p_1,...,p_N) ordering
+        ind = np.concatenate([np.arange(0, 2 * self._modes, 2), np.arange(1, 2 * self._modes, 2)])
         prob = 0
         for i in range(self.num_weights):
             prob += self._weights[i] * twq.density_matrix_element(
-                self._mus[i], self._covs[i], n, n, hbar=self._hbar
+                self._mus[i][ind], self._covs[i][np.ix_(ind, ind)], n, n, hbar=self._hbar
             )
         return prob.real
 
